@@ -94,9 +94,14 @@ def gen_response(out):
     # headerlist: how the blacklist is consulted (the name test)
     hl = find_func(cls, 'headerlist')
     src = ast.unparse(hl)
-    out.append('(* headerlist filters with: %s *)' % ('h[0] not in bad_headers' if 'h[0] not in bad_headers' in src else 'OTHER'))
-    out.append('Definition headerlist_blacklist_case_sensitive : bool := %s.' %
-               ('true' if 'h[0] not in bad_headers' in src else 'false'))
+    if 'h[0].title() not in bad_headers' in src:
+        cs = 'false'
+    elif 'h[0] not in bad_headers' in src:
+        cs = 'true'
+    else:
+        raise Shape('headerlist: blacklist name test not recognised')
+    out.append('(* headerlist consults the per-status blacklist case-%s *)' % ('sensitively' if cs == 'true' else 'insensitively (h[0].title())'))
+    out.append('Definition headerlist_blacklist_case_sensitive : bool := %s.' % cs)
 
 
 def gen_ombott(out):
